@@ -126,6 +126,11 @@ func usePipeOuts(pipe *syntax.Pipeline,
 			usedPipes, outputs)
 	}
 	for _, call := range pipe.Calls {
+		// The references made inside a called pipeline use outputs even if
+		// nothing refers to an output of that pipeline.
+		if p, ok := pipe.Callables.Table[call.Id].(*syntax.Pipeline); ok && p != nil {
+			usedPipes[makeDecId(p)] = p
+		}
 		removeBoundCallRefs(call.Bindings, pipe.Callables.Table,
 			usedPipes, outputs)
 		if call.Modifiers != nil && call.Modifiers.Bindings != nil {
